@@ -4,6 +4,11 @@
  *        rpm12:    DECRPM value reported for mode 12 (0 = no report, 1 = set, 2 = reset)
  *   U <altscreen> <colon> <rgb> <op>...          through a toplevel Tickit instance: tickit_new_for_term,
  *        one tick (= setupterm), the ops on its terminal, D = tickit_unref
+ *   W <altscreen> <colon> <rgb> <d69> <d25> <d12> <dscusr> <op>...   as U, with a terminal IN THE LOOP that answers the
+ *        driver's start-up queries: its replies (DECRPM ?69;1 ?25;1 ?12;2, DECRQSS "2 q") arrive on the terminal's input
+ *        fd (a pipe) and are read whenever the instance next reads input.  d* = the number of reads (ticks) after which
+ *        the reply is there: 0 = before the first tick (whose setupterm awaits them), k = before the (k+1)-th tick,
+ *        -1 = never.  Extra op: t = one more tickit_tick(NOHANG).
  * ops: A:v V:v B:v M:v H:v K:v (setctl altscreen, cursorvis, cursorblink, mouse, cursorshape, keypad_app)
  *      g:X (getctl, X one of AVBMHK)  s:<pen>  c:<pen>  Z (pause)  R (resume)  T (teardown)  D (destroy)
  *      U only: w (the application takes its own reference on the root window: tickit_window_ref(
@@ -11,6 +16,17 @@
  *      something held, D (tickit_unref of the instance) does not end the case: x may follow.
  * observation: I:<start bytes> [S:<setup bytes>] then per op: set "<ret>:<bytes>", get "=<value>", else "<bytes>" */
 #include "xt_common.h"
+#include <unistd.h>
+#include <fcntl.h>
+
+/* the responding terminal: replies not yet delivered */
+static int w_fd = -1, w_delay[4];
+static const char *w_reply[4] = { "\033[?69;1$y", "\033[?25;1$y", "\033[?12;2$y", "\033P1$r2 q\033\\" };
+static void w_deliver(int tick)
+{
+  for(int i = 0; i < 4; i++)
+    if(w_delay[i] == tick) { if(write(w_fd, w_reply[i], strlen(w_reply[i])) < 0) {} }
+}
 
 static TickitTermCtl ctl_of(char c)
 {
@@ -31,9 +47,21 @@ int main(void)
   while(vh_next()) {
     if(vh_ntok < 4) { printf("ERR case\n"); continue; }
     char layer = vh_tok[0][0];
-    TickitTerm *tt = xt_build();
+    int fds[2] = { -1, -1 };
+    TickitTerm *tt;
+    if(layer == 'W') {
+      if(pipe(fds) != 0) { printf("ERR pipe\n"); continue; }
+      fcntl(fds[1], F_SETFL, fcntl(fds[1], F_GETFL) | O_NONBLOCK);
+      xt_reset();
+      tt = tickit_term_build(&(struct TickitTermBuilder){
+        .termtype = "xterm", .open = TICKIT_OPEN_FDS, .input_fd = fds[0], .output_fd = -1,
+        .output_func = xt_output, .output_func_user = NULL,
+      });
+    }
+    else
+      tt = xt_build();
     Tickit *t = NULL;
-    int first;
+    int first, ticks = 0;
     printf("I:"); xt_puthex();
     if(layer == 'T') {
       if(vh_ntok < 5) { printf(" ERR case\n"); tickit_term_unref(tt); continue; }
@@ -48,6 +76,22 @@ int main(void)
       tickit_tick(t, TICKIT_RUN_NOHANG);
       printf(" S:"); xt_puthex();
       first = 4;
+    }
+    else if(layer == 'W') {
+      if(vh_ntok < 8) { printf(" ERR case\n"); tickit_term_unref(tt); close(fds[0]); close(fds[1]); continue; }
+      /* separator and RGB are established up front, as in the other layers */
+      xt_push(tt, vh_int(2) ? "\eP1$r38:5:255m\e\\" : "\eP1$r38;5;255m\e\\");
+      tickit_term_setctl_int(tt, tickit_termctl_lookup("xterm.cap_rgb8"), vh_int(3));
+      w_fd = fds[1];
+      for(int i = 0; i < 4; i++) w_delay[i] = vh_int(4 + i);
+      t = tickit_new_for_term(tt);
+      if(!vh_int(1)) tickit_setctl_int(t, TICKIT_CTL_USE_ALTSCREEN, 0);
+      w_deliver(ticks);
+      xt_reset();
+      tickit_tick(t, TICKIT_RUN_NOHANG);
+      ticks++;
+      printf(" S:"); xt_puthex();
+      first = 8;
     }
     else { printf(" ERR layer\n"); tickit_term_unref(tt); continue; }
 
@@ -84,16 +128,23 @@ int main(void)
         destroyed = !(held_win || held_term);
         putchar(' '); xt_puthex();
       }
+      else if(kind == 't' && layer == 'W' && t) {
+        w_deliver(ticks);
+        tickit_tick(t, TICKIT_RUN_NOHANG);
+        ticks++;
+        tickit_term_flush(tt);
+        putchar(' '); xt_puthex();
+      }
       else if(kind == 'w' && t) {
         held_win = tickit_window_ref(tickit_get_rootwin(t)); held_winrefs++;
         tickit_term_flush(tt);
         putchar(' '); xt_puthex();
       }
-      else if(kind == 'h' && layer == 'U') {
+      else if(kind == 'h' && layer != 'T') {
         tickit_term_ref(tt); held_term++;
         putchar(' '); xt_puthex();
       }
-      else if(kind == 'x' && layer == 'U') {
+      else if(kind == 'x' && layer != 'T') {
         bool last = !t;
         while(held_winrefs) { tickit_window_unref(held_win); held_winrefs--; }
         held_win = NULL;
@@ -110,6 +161,7 @@ int main(void)
       while(held_winrefs) { tickit_window_unref(held_win); held_winrefs--; }
       while(held_term) { tickit_term_unref(tt); held_term--; }
     }
+    if(fds[0] != -1) { close(fds[0]); close(fds[1]); w_fd = -1; }
   }
   return 0;
 }
